@@ -1,8 +1,9 @@
 \* exhaustive, grid/cache focus: assembly > block > component, nesting 3 (quick)
 CONSTANTS N = 3  Par = {"p", "q"}  NVal = 2  NGrid = 2  MaxDepth = 3  MaxLevel = 7
-          GridSlot = "stack"  PickleSerial = "fresh"
+          GridSlot = "stack"  PickleSerial = "fresh"  DbSerial = "max"
 CONSTANTS Keeps <- KeepsNone  Acts <- ActsGrid  Parent0 <- ParentB  Cls0 <- ClsB
           ParOf <- McParOf  GridCls <- McGridCls  MatCls <- McMatCls
+          DbCls <- McDbCls  CopyCls <- McAllCls  CallsOf <- McCallsOf
 INIT Init
 NEXT Next
 CONSTRAINT Bound
